@@ -9,6 +9,7 @@ import (
 	"fmt"
 	"io"
 	"sort"
+	"strings"
 	"sync"
 	"sync/atomic"
 	"time"
@@ -159,6 +160,12 @@ func verifC11InResponse(name, kind string) *conformancev1.ClientCompatResponse {
 		}}
 	case "neither":
 		return &conformancev1.ClientCompatResponse{TestName: name}
+	}
+	// "error:<message>" — a client-reported error with that message, whatever it is (C04 op inrun)
+	if msg, ok := strings.CutPrefix(kind, "error:"); ok {
+		return &conformancev1.ClientCompatResponse{TestName: name, Result: &conformancev1.ClientCompatResponse_Error{
+			Error: &conformancev1.ClientErrorResult{Message: msg},
+		}}
 	}
 	panic("c11 inproc: unknown answer kind " + kind)
 }
